@@ -59,6 +59,9 @@ impl FreeWord {
 
     pub fn rotated(&self, i: isize) -> Self {
         let n = self.w.len() as isize;
+        if n == 0 {
+            return self.clone();
+        }
         let i = i.rem_euclid(n) as usize;
 
         let r = std::iter::empty()
